@@ -264,7 +264,8 @@ theorem parsePi_wf (hT : TablesOK T) {s : Stream} (hs : SOk txt s) (hp : s.start
     apply wf_bind_lift tw _ _ _ _ _ (consumeName_spec T txt h1.2).post
     rintro ⟨s2, target⟩ ⟨h2, _⟩
     simp only at h2 ⊢
-    have h3 := skipSpaces_step T hT h2.2
+    apply wf_bind_lift tw _ _ _ _ _ (declConsumeSpaces_spec T hT txt h2.2).post
+    intro s3 h3
     apply wf_bind_lift tw _ _ _ _ _ (consumeChars_spec T txt _ h3.2).post
     rintro ⟨s4, content⟩ ⟨h4, _⟩
     simp only at h4 ⊢
